@@ -68,7 +68,7 @@ func checkC08(c *vkit.Ctx) {
 
 func runC08(c *vkit.Ctx, lab *Lab, r *rand.Rand, i int) {
 	lab.Wipe()
-	lc := lab.Gen(r, LabOpts{Skips: true, RunFilter: true, Counts: true, Parallel: true, Fuzz: true})
+	lc := lab.Gen(r, LabOpts{Skips: true, RunFilter: true, Counts: true, Parallel: true, Fuzz: true, Bench: true})
 	rec, ok := lab.record(c, lc)
 	if !ok {
 		c.Count("premise_record_failed", 1)
@@ -76,7 +76,7 @@ func runC08(c *vkit.Ctx, lab *Lab, r *rand.Rand, i int) {
 	}
 	own := BuildOwned(rec)
 	sd := lab.Seed(r, own, LabOpts{Stale: true})
-	res := lab.P.RunChild(RunOpt{PkgDir: lab.PkgDir, Scenario: lc.withSkips(), Run: lc.Run, Count: lc.Count, Extra: lc.Flags, Update: lc.Update})
+	res := lab.P.RunChild(RunOpt{PkgDir: lab.PkgDir, Scenario: lc.withSkips(), Run: lc.Run, Count: lc.Count, Extra: lc.RunnerFlags(), Update: lc.Update})
 	in := labSample(lc)
 	if !res.Complete {
 		c.Violate("clean-did-not-complete", "", fmt.Sprintf("child died: %v %s", res.Err, res.Stderr), in)
